@@ -1,0 +1,59 @@
+//go:build verif
+
+// Contracts for the deductive checker in /verif (comment-only; compiled only with -tags verif).
+package objline
+
+//@ func WriteString
+//@   props C06
+//@   requires w != nil && buf != nil
+//@   modifies region(bufreg(buf)), output(w)
+//@   ensures [C06] err == nil ==> wlen(w) == old(wlen(w)) + 2 + len(s) && wbe16(w, old(wlen(w))) == len(s) && n == 2 + len(s)
+//@   ensures [C06] err == nil ==> forall(k, 0, len(s), wbyte(w, old(wlen(w)) + 2 + k) == s[k])
+//@   ensures [C06] len(s) > 65535 ==> err != nil
+
+//@ func ReadString
+//@   props C06 C17 C18
+//@   requires p != nil && p.r != nil && p.buf != nil && 0 <= p.pos && p.pos <= 576460752303423488 && s != nil
+//@   modifies p.pos, region(bufreg(p.buf)), stream(p.r), *s
+//@   ensures [C18] err == nil ==> len(*s) == sbe16(p.r, old(pos(p.r))) && pos(p.r) == old(pos(p.r)) + 2 + len(*s) && n == 2 + len(*s)
+//@   ensures [C18] err == nil ==> forall(k, 0, len(*s), (*s)[k] == streamByte(p.r, old(pos(p.r)) + 2 + k))
+//@   ensures [C18] streamClean(p.r) && old(avail(p.r)) >= 2 && old(avail(p.r)) >= 2 + sbe16(p.r, old(pos(p.r))) ==> err == nil
+
+//@ func WriteUint16
+//@   props C06
+//@   requires w != nil && buf != nil
+//@   modifies region(bufreg(buf)), output(w)
+//@   ensures [C06] err == nil ==> wlen(w) == old(wlen(w)) + 2 && wbe16(w, old(wlen(w))) == u && n == 2
+
+//@ func ReadUint16
+//@   props C06 C17 C18
+//@   requires p != nil && p.r != nil && p.buf != nil && 0 <= p.pos && p.pos <= 576460752303423488 && u != nil
+//@   modifies p.pos, region(bufreg(p.buf)), stream(p.r), *u
+//@   ensures [C18] err == nil ==> *u == sbe16(p.r, old(pos(p.r))) && pos(p.r) == old(pos(p.r)) + 2 && n == 2
+//@   ensures [C18] streamClean(p.r) && old(avail(p.r)) >= 2 ==> err == nil
+
+//@ func WriteUint32
+//@   props C06
+//@   requires w != nil && buf != nil
+//@   modifies region(bufreg(buf)), output(w)
+//@   ensures [C06] err == nil ==> wlen(w) == old(wlen(w)) + 4 && wbe32(w, old(wlen(w))) == u && n == 4
+
+//@ func ReadUint32
+//@   props C06 C17 C18
+//@   requires p != nil && p.r != nil && p.buf != nil && 0 <= p.pos && p.pos <= 576460752303423488 && u != nil
+//@   modifies p.pos, region(bufreg(p.buf)), stream(p.r), *u
+//@   ensures [C18] err == nil ==> *u == sbe32(p.r, old(pos(p.r))) && pos(p.r) == old(pos(p.r)) + 4 && n == 4
+//@   ensures [C18] streamClean(p.r) && old(avail(p.r)) >= 4 ==> err == nil
+
+//@ func WriteBool
+//@   props C06
+//@   requires w != nil && buf != nil
+//@   modifies region(bufreg(buf)), output(w)
+//@   ensures [C06] err == nil ==> wlen(w) == old(wlen(w)) + 1 && wbyte(w, old(wlen(w))) == ite(v, 1, 0) && n == 1
+
+//@ func ReadBool
+//@   props C06 C17 C18
+//@   requires p != nil && p.r != nil && p.buf != nil && 0 <= p.pos && p.pos <= 576460752303423488 && v != nil
+//@   modifies p.pos, region(bufreg(p.buf)), stream(p.r), *v
+//@   ensures [C18] err == nil ==> (*v <==> streamByte(p.r, old(pos(p.r))) == 1) && streamByte(p.r, old(pos(p.r))) <= 1 && pos(p.r) == old(pos(p.r)) + 1 && n == 1
+//@   ensures [C18] streamClean(p.r) && old(avail(p.r)) >= 1 && streamByte(p.r, old(pos(p.r))) <= 1 ==> err == nil
